@@ -164,7 +164,7 @@ pub async fn run(source: Source, drain: bool) -> RunResult {
     }
 
     // phase 2: drain (only when generating; a replay file already contains the drain actions)
-    if fatal.is_none() && drain && generator.is_some() {
+    if fatal.is_none() && drain {
         let budget = 60 * (sim.jobs().iter().map(|j| j.n_tasks as usize).sum::<usize>() + 10);
         let mut steps = 0usize;
         monitors.drain_started(&sim);
